@@ -146,7 +146,7 @@ def _program(builders, stop_stmt, common=None, order=None):
         L.append('%d %s' % (n, VAROPS[op]))
         n += 2
     if 'fn' in b:
-        L.append('300 DEF FNF(X)=X+1')
+        L.append('300 DEF FNF(X)=X+1:DEF FNG$(X$)=X$+"!"')
     if 'rn' in b:
         L.append('310 RANDOMIZE 7:Q9!=RND')
     if 'oe' in b or 'eh' in b:
@@ -600,7 +600,7 @@ def legs(ctx):
             if ctx.quick:
                 combos = [(0, 0, 0, 0), (2, 0, 0, 0), (3, 1, 0, 0), (4, 0, 600, 0), (0, 1, 330, 0)]
                 if len(order) <= 1:
-                    combos += [(1, 0, 0, 1), (5, 0, 600, 0), (0, 0, 0, 1)]
+                    combos += [(1, 0, 0, 1), (5, 0, 600, 0), (0, 0, 0, 1), (2, 0, 0, 1), (5, 0, 0, 1)]
             else:
                 combos = [(chi, base, 0, 0) for chi in range(len(CHAINS)) for base in (0, 1)]
                 combos += [(chi, 0, 600, 0) for chi in range(len(CHAINS))]
